@@ -58,8 +58,8 @@ macro_rules! check_digit {
 }
 
 #[inline(always)]
-fn parse_exponent(data: &[u8], index: &mut usize) -> Result<i32, Error> {
-    let mut exponent: i32 = 0;
+fn parse_exponent(data: &[u8], index: &mut usize) -> Result<i64, Error> {
+    let mut exponent: i64 = 0;
     let mut negative = false;
 
     if *index >= data.len() {
@@ -76,8 +76,9 @@ fn parse_exponent(data: &[u8], index: &mut usize) -> Result<i32, Error> {
     }
 
     check_digit!(data, *index);
-    while exponent < 1000 && is_digit!(data, *index) {
-        exponent = digit!(data, *index) as i32 + exponent * 10;
+    // saturate far beyond any digit count the exponent can be combined with
+    while exponent < (1 << 40) && is_digit!(data, *index) {
+        exponent = digit!(data, *index) as i64 + exponent * 10;
         *index += 1;
     }
     while is_digit!(data, *index) {
@@ -118,7 +119,7 @@ fn parse_number_fraction(
     data: &[u8],
     index: &mut usize,
     significant: &mut u64,
-    exponent: &mut i32,
+    exponent: &mut i64,
     mut need: isize,
     dot_pos: usize,
 ) -> Result<bool, Error> {
@@ -144,7 +145,7 @@ fn parse_number_fraction(
         }
     }
 
-    *exponent -= *index as i32 - dot_pos as i32;
+    *exponent -= *index as i64 - dot_pos as i64;
     let mut trunc = false;
     while is_digit!(data, *index) {
         trunc = true;
@@ -161,7 +162,7 @@ fn parse_number_fraction(
 #[inline(always)]
 pub fn parse_number(data: &[u8], index: &mut usize, negative: bool) -> Result<ParserNumber, Error> {
     let mut significant: u64 = 0;
-    let mut exponent: i32 = 0;
+    let mut exponent: i64 = 0;
     let mut trunc = false;
     let raw_num = &data[*index..];
 
@@ -220,7 +221,7 @@ pub fn parse_number(data: &[u8], index: &mut usize, negative: bool) -> Result<Pa
                         dot_pos,
                     )?;
                 } else {
-                    exponent -= *index as i32 - dot_pos as i32;
+                    exponent -= *index as i64 - dot_pos as i64;
                     if match_digit!(data, *index, b'e' | b'E') {
                         *index += 1;
                         exponent += parse_exponent(data, &mut *index)?;
@@ -324,6 +325,8 @@ pub fn parse_number(data: &[u8], index: &mut usize, negative: bool) -> Result<Pa
     }
 
     // raw_num is pass-through for fallback parsing logic
+    // (at most 20 significant digits: beyond +-100000 the result is zero or infinite anyway)
+    let exponent = exponent.clamp(-100_000, 100_000) as i32;
     parse_float(significant, exponent, negative, trunc, raw_num)
 }
 
